@@ -43,8 +43,10 @@ class C15(Harness):
 
     def inputs(self, ctx, cell):
         ni, nc, nt = cell["ni"], cell["nc"], cell["nt"]
-        toks = [[[ctx.fresh_real("x_%d_%d_%d" % (i, j, t)) for t in range(nt)] for j in range(nc)] for i in range(ni)]
-        return {"x": toks, "custom_names": bool(ctx.fresh_bool("custom_names"))}
+        int_cells = bool(ctx.fresh_bool("int_cells"))  # integer-valued panel (arbitrary magnitude) instead of reals
+        mk = ctx.fresh_int if int_cells else ctx.fresh_real
+        toks = [[[mk("x_%d_%d_%d" % (i, j, t)) for t in range(nt)] for j in range(nc)] for i in range(ni)]
+        return {"x": toks, "custom_names": bool(ctx.fresh_bool("custom_names")), "int_cells": int_cells}
 
     # ------------------------------------------------------------------
     def scenario(self, W, inp, cell):
@@ -58,10 +60,11 @@ class C15(Harness):
         ni, nc, nt = cell["ni"], cell["nc"], cell["nt"]
         x = inp["x"]
         names = ["zb", "ya", "xc"][:nc] if inp["custom_names"] else ["var_%d" % j for j in range(nc)]  # custom names are NOT in lexicographic order
-        sym = not isinstance(x[0][0][0], float)
+        sym = not isinstance(x[0][0][0], (float, int))
+        cdt = "int64" if inp.get("int_cells") else float  # dtype of the concrete replays
 
         def arr3():
-            a = np.empty((ni, nc, nt), dtype=object if sym else float)
+            a = np.empty((ni, nc, nt), dtype=object if sym else cdt)
             for i in range(ni):
                 for j in range(nc):
                     for t in range(nt):
@@ -73,7 +76,7 @@ class C15(Harness):
             for j, nm in enumerate(names):
                 col = []
                 for i in range(ni):
-                    v = np.empty(nt, dtype=object if sym else float)
+                    v = np.empty(nt, dtype=object if sym else cdt)
                     for t in range(nt):
                         v[t] = x[i][j][t]
                     col.append(v if as_np else pd.Series(v))
@@ -120,7 +123,9 @@ class C15(Harness):
                 return [[[S(A[i, j * nt + t]) for t in range(nt)] for j in range(A.shape[1] // nt)] for i in range(A.shape[0])], ([str(c) for c in X.columns] if hasattr(X, "columns") else None)
             raise AssertionError(rep)
 
-        start = {"nested": nested(), "nested_np": nested(True), "3d": arr3()}
+        # the same 3-D panel also in Fortran memory order (what a transposed / column-major user array looks like)
+        start = {"nested": nested(), "nested_np": nested(True), "3d": arr3(), "3d[F-order]": np.asfortranarray(arr3())}
+        rep_of = lambda lab: "3d" if lab.startswith("3d") else lab  # noqa: E731
         out = {"paths": {}}
         for s_rep, X0 in start.items():
             # all conversion paths of length <= 3
@@ -129,7 +134,7 @@ class C15(Harness):
                 nxt = []
                 for path, X in frontier:
                     for (a, b), f in conv.items():
-                        if a != path[-1] or b in path:
+                        if a != rep_of(path[-1]) or b in path:
                             continue
                         try:
                             Y = f(X)
